@@ -192,7 +192,11 @@ class MediaSegment(DashElement):
             self.elt.check_not_in(pts, pts_values)
             pts_values.add(pts)
             if sample.duration is None:
-                samp_dur = moov.mvex.trex.default_sample_duration
+                trex = moov.find_child('trex')
+                if not self.elt.check_not_none(
+                        trex, msg='Sample has no duration and init segment has no TREX box'):
+                    return
+                samp_dur = trex.default_sample_duration
             else:
                 samp_dur = sample.duration
             dts += samp_dur
